@@ -26,7 +26,7 @@ from pyvc.values import cur, is_none, mk_bool, mk_int
 from contracts.proto_widget import *
 from contracts.proto_widget import WidgetProtocol
 from contracts.C16_focuslist import RI as LIST_RI
-from contracts.C09_geometry import calls, opt_same
+from contracts.C09_geometry import calls, opt_eq_shift, opt_same
 
 from urwid.widget import grid_flow as _gf
 from urwid.widget import monitored_list as _mlmod
@@ -454,3 +454,97 @@ class gf_keypress:
         else:
             yield "unhandled-key-leaves-the-focus", s._contents._focus == old._contents._focus
         yield "cells-untouched", n_cells(s) == n_cells(old)
+
+
+def _size_ok(a):
+    return True
+
+
+def _after_refresh_state(old, s):
+    """What callers of an entry point know of the GridFlow afterwards: the cells are as before."""
+    return n_cells(s) == n_cells(old)
+
+
+@_entry("rows", property=("C06", "C09", "C01"))
+class gf_rows:
+    self_shape = GRIDFLOW
+    params = dict(size=Tup(Dim), focus=Bool)
+    result = Dim
+    invariant = staticmethod(gf_inv)
+    raises = ()
+    modifies = ("_wrapped_widget", "_cache_maxcol")
+
+    def requires(s, a):
+        return gf_wf(s)
+
+    def ensures(old, s, a, result):
+        clauses, call, d = _refreshed_then("rows", a, ("size", "focus"))
+        yield from clauses
+        if call is None:
+            return
+        yield "rows-of-the-display-widget-for-this-size", result == call[4]
+        yield "focus-and-cells-untouched", _same_cells(old, s)
+
+    def ensures_callee(old, s, a, result):
+        W = PROTOCOLS["Widget"]
+        yield "rows-of-the-display-widget-in-place", result == W.call_quiet(cur(), s._wrapped_widget, "rows", dict(size=a.size, focus=a.focus))
+        yield "built-from-the-current-cells", _display_cells(s._wrapped_widget) == n_cells(old)
+        yield "focus-and-cells-untouched", _same_cells(old, s)
+
+    def effects(old, s, a, result):
+        s._contents.fields["_focus"] = old._contents._focus
+        cur().event("refresh", a.size, s._wrapped_widget)
+
+
+@_entry("render", property=("C06", "C09", "C01"))
+class gf_render:
+    self_shape = GRIDFLOW
+    params = dict(size=GSIZE, focus=Bool)
+    result = CCANVAS
+    invariant = staticmethod(gf_inv)
+    raises = ()
+    modifies = ("_wrapped_widget", "_cache_maxcol")
+
+    def requires(s, a):
+        return gf_wf(s)
+
+    def ensures(old, s, a, r):
+        clauses, call, d = _refreshed_then("render", a, ("size", "focus"))
+        yield from clauses
+        if call is None:
+            return
+        child = call[4]
+        yield "canvas-is-the-display-widgets", both(r.ncols == child.ncols, r.nrows == child.nrows, opt_eq_shift(r.cursor, child.cursor, 0, 0))
+        yield "focus-and-cells-untouched", _same_cells(old, s)
+
+
+@_entry("pack", property=("C09", "C01"))
+class gf_pack:
+    self_shape = GRIDFLOW
+    params = dict(size=GSIZE, focus=Bool)
+    result = Tup(Int, Int)
+    invariant = staticmethod(gf_inv)
+    raises = ()
+    modifies = ("_wrapped_widget", "_cache_maxcol")
+
+    def requires(s, a):
+        return gf_wf(s)
+
+    def ensures(old, s, a, result):
+        W = PROTOCOLS["Widget"]
+        if len(a.size) == 1:
+            # (failed before fix: commit b256678: pack((maxcol,)) measured whatever display widget was left in place)
+            clauses, call, d = _refreshed_then("pack", a, ("size", "focus"))
+            yield from clauses
+            if call is not None:
+                yield "measure-of-the-display-widget-for-this-size", both(result[0] == call[4][0], result[1] == call[4][1])
+        else:
+            # natural size: all cells on one row, and the rows the display widget for exactly that width has
+            n = n_cells(old)
+            cols = ite(n > 0, n * old._cell_width + (n - 1) * old.h_sep, 0)
+            ev = _events()
+            yield "natural-width-is-all-cells-on-one-row", result[0] == cols
+            yield "display-widget-made-current-for-the-natural-width", both(len(ev) == 1, (ev[0][0] == "refresh" and len(ev[0][1]) == 1 and ev[0][1][0] == cols) if ev else False)
+            if ev and ev[0][0] == "refresh":
+                yield "rows-of-that-display-widget", result[1] == W.call_quiet(cur(), ev[0][2], "rows", dict(size=(cols,), focus=a.focus))
+        yield "focus-and-cells-untouched", _same_cells(old, s)
